@@ -179,6 +179,10 @@ type textProgressBar struct {
 
 func newTextProgressBar(writer io.Writer, columns int32, tmuxPaneColumns int32,
 	tmuxPrefix, colorPair string) *textProgressBar {
+	const maxPaneColumns = 10000
+	if tmuxPaneColumns > maxPaneColumns {
+		tmuxPaneColumns = 0 // the pane width comes from the peer: ignore an absurd one
+	}
 	if tmuxPaneColumns > 1 {
 		columns = tmuxPaneColumns - 1 //  -1 to avoid messing up the tmux pane
 	}
